@@ -58,7 +58,18 @@ impl RawParameters {
         let mut globals = self.globals.clone();
         if definition.is_resource_name() {
             globals.remove("_name");
-            globals.extend(definition.split_into_parameters());
+            let mut arguments = definition.split_into_parameters();
+            // An argument forwarded under its own name (`a=$a`, `a=$a(default)`) refers
+            // to the value the caller gave for `a`: keep that, rather than replacing it
+            // with a reference to itself
+            arguments.retain(|key, value| {
+                let forwarded = value
+                    .trim()
+                    .strip_prefix('$')
+                    .map(|name| name.split('(').next().unwrap_or_default().trim() == key);
+                !(forwarded == Some(true) && globals.contains_key(key))
+            });
+            globals.extend(arguments);
             globals.remove("inv");
             recursion_level += 1;
         }
